@@ -78,6 +78,28 @@ fn mark(v: u64) {
     }
 }
 
+/// valgrind client request (amd64 magic sequence; a no-op when not running under valgrind)
+#[inline(never)]
+fn vg_request(req: u64, a1: u64, a2: u64) -> u64 {
+    let args: [u64; 6] = [req, a1, a2, 0, 0, 0];
+    let mut res: u64 = 0;
+    unsafe {
+        core::arch::asm!(
+            "rol rdi, 3",
+            "rol rdi, 13",
+            "rol rdi, 61",
+            "rol rdi, 51",
+            "xchg rbx, rbx",
+            inout("rdx") res,
+            in("rax") args.as_ptr(),
+            inout("rdi") 0u64 => _,
+        );
+    }
+    res
+}
+const VG_MAKE_MEM_UNDEFINED: u64 = 0x4d43_0001;
+const VG_MAKE_MEM_DEFINED: u64 = 0x4d43_0002;
+
 fn unhex(s: &str) -> Vec<u8> {
     let s = s.trim();
     (0..s.len() / 2).map(|i| u8::from_str_radix(&s[2 * i..2 * i + 2], 16).unwrap()).collect()
@@ -139,6 +161,7 @@ fn main() {
     // secret-derived values prepared OUTSIDE the traced region
     let sec_scalar = Scalar::from_bytes_mod_order(s32);
     let sec_scalar_nz = if sec_scalar == Scalar::ZERO { Scalar::ONE } else { sec_scalar };
+    let sec_scalar_nz2 = if sec_scalar_nz + Scalar::ONE + Scalar::ONE == Scalar::ZERO { Scalar::ONE } else { sec_scalar_nz + Scalar::ONE + Scalar::ONE };
     let sec_point = EdwardsPoint::mul_base(&sec_scalar);
     let sec_rpoint = RistrettoPoint::mul_base(&sec_scalar);
     // a secret point outside the prime-order subgroup: byte 32 of the secret picks the torsion component
@@ -171,9 +194,31 @@ fn main() {
     let pub_u2 = pub_point.to_montgomery();
     let eph = x25519_dalek::StaticSecret::from(s32);
     let sk = ed25519_dalek::SigningKey::from_bytes(&s32);
+    // taint mode (CT_TAINT, under valgrind memcheck): the storage of every secret-holding value is marked
+    // UNDEFINED at the start of a region and DEFINED again (with the output) at its end; memcheck then reports
+    // every conditional jump and every address that depends on it - also branches that the concrete secret
+    // does not take (a branch guarded by a 2^-40 condition is reported although it never fires)
+    let taint_on = std::env::var("CT_TAINT").is_ok();
+    macro_rules! region_of {
+        ($v:expr) => {
+            (std::ptr::addr_of!($v) as usize, std::mem::size_of_val(&$v))
+        };
+    }
+    let secret_storage: Vec<(usize, usize)> = vec![
+        region_of!(s32), region_of!(s64), region_of!(sec_scalar), region_of!(sec_scalar_nz), region_of!(sec_scalar_nz2), region_of!(sec_point), region_of!(sec_point_t),
+        region_of!(sec_rpoint), region_of!(sec_u), region_of!(sec_enc), region_of!(sec_renc), region_of!(eph), region_of!(sk), region_of!(reusable),
+    ];
+    let set_taint = |req: u64| {
+        if taint_on {
+            for (a, n) in secret_storage.iter() {
+                vg_request(req, *a as u64, *n as u64);
+            }
+        }
+    };
     let run = |op: &str| -> Vec<u8> {
         let out: Vec<u8>;
         mark(0x1111_1111_1111_1111);
+        set_taint(VG_MAKE_MEM_UNDEFINED);
     match op {
             "sc_add" => out = (sec_scalar + pub_scalar).to_bytes().to_vec(),
             "sc_sub" => out = (pub_scalar - sec_scalar).to_bytes().to_vec(),
@@ -183,10 +228,7 @@ fn main() {
             "sc_reduce32" => out = Scalar::from_bytes_mod_order(s32).to_bytes().to_vec(),
             "sc_reduce64" => out = Scalar::from_bytes_mod_order_wide(&s64).to_bytes().to_vec(),
             "sc_batch_invert" => {
-                let mut v = [sec_scalar_nz, sec_scalar_nz + Scalar::ONE + Scalar::ONE, pub_scalar];
-                if v[1] == Scalar::ZERO {
-                    v[1] = Scalar::ONE;
-                }
+                let mut v = [sec_scalar_nz, sec_scalar_nz2, pub_scalar];
                 let r = Scalar::batch_invert(&mut v);
                 out = r.to_bytes().to_vec();
             }
@@ -269,6 +311,10 @@ fn main() {
                 std::process::exit(2);
             }
         }
+        if taint_on {
+            vg_request(VG_MAKE_MEM_DEFINED, out.as_ptr() as u64, out.len() as u64);
+        }
+        set_taint(VG_MAKE_MEM_DEFINED);
     mark(0x2222_2222_2222_2222);
         out
     };
